@@ -26,6 +26,7 @@ func VH_C20_bookkeeping() {
 	owners := []*Context{a, b}
 	var live [2][2]bool // [owner][ref]
 	var once [2][2]bool // the live job is a run-once job
+	var liveN [2][2]int // payload of the live job (the FIRST one armed under a reference stays while it is pending)
 	L := vrtParam("ops", 3)
 	for i := 0; i < L; i++ {
 		o, r := vrtChoose(2), vrtChoose(2)
@@ -35,19 +36,32 @@ func VH_C20_bookkeeping() {
 		case 0:
 			d := time.Duration(vrtInt64())
 			vrtAssume(d >= 0)
-			msg := &vhUserMsg{N: 10*o + r}
-			vrtAssert(owner.scheduler.Once(b.ref, d, msg, vivid.WithSchedulerReference(refs[r])) == nil, "once-ok")
-			live[o][r], once[o][r] = true, true
-			tr, ok := w.quartz.Triggers[key].(*quartz.RunOnceTrigger)
-			vrtAssert(ok && tr.Delay == d, "once-registers-run-once-trigger-with-the-delay")
+			msg := &vhUserMsg{N: 100*(i+1) + 10*o + r}
+			was := live[o][r]
+			_ = owner.scheduler.Once(b.ref, d, msg, vivid.WithSchedulerReference(refs[r]))
+			if !was {
+				live[o][r], once[o][r], liveN[o][r] = true, true, msg.N
+				tr, ok := w.quartz.Triggers[key].(*quartz.RunOnceTrigger)
+				vrtAssert(ok && tr.Delay == d, "once-registers-run-once-trigger-with-the-delay")
+			} else {
+				// the reference is still pending: go-quartz keeps the earlier job;
+				// whatever vivid returns, the earlier job must stay reachable
+				vrtReach("rearmed-while-pending")
+			}
 			vrtReach("once")
 		case 1:
 			d := time.Duration(vrtInt64())
 			vrtAssume(d > 0)
-			vrtAssert(owner.scheduler.Loop(b.ref, d, &vhUserMsg{N: 10*o + r}, vivid.WithSchedulerReference(refs[r])) == nil, "loop-ok")
-			live[o][r], once[o][r] = true, false
-			tr, ok := w.quartz.Triggers[key].(*quartz.SimpleTrigger)
-			vrtAssert(ok && tr.Interval == d, "loop-registers-simple-trigger-with-the-interval")
+			msg := &vhUserMsg{N: 100*(i+1) + 10*o + r}
+			was := live[o][r]
+			_ = owner.scheduler.Loop(b.ref, d, msg, vivid.WithSchedulerReference(refs[r]))
+			if !was {
+				live[o][r], once[o][r], liveN[o][r] = true, false, msg.N
+				tr, ok := w.quartz.Triggers[key].(*quartz.SimpleTrigger)
+				vrtAssert(ok && tr.Interval == d, "loop-registers-simple-trigger-with-the-interval")
+			} else {
+				vrtReach("rearmed-while-pending")
+			}
 			vrtReach("loop")
 		case 2:
 			err := owner.scheduler.Cancel(refs[r])
@@ -90,7 +104,7 @@ func VH_C20_bookkeeping() {
 					w.run(50, "fire")
 					vrtAssert(len(ab.seen) == seenBefore+1, "fired-job-delivers-once")
 					u, ok := ab.seen[len(ab.seen)-1].(*vhUserMsg)
-					vrtAssert(ok && u.N == 10*oo+rr, "fired-job-carries-the-original-message")
+					vrtAssert(ok && u.N == liveN[oo][rr], "fired-job-carries-the-original-message")
 					vrtReach("fired")
 					if once[oo][rr] {
 						live[oo][rr] = false // expired with its only firing
